@@ -554,6 +554,12 @@ class _PEval:
         if isinstance(st, ast.If):
             mentions = any(isinstance(n, ast.Name) and (n.id in self.const or n.id in self.sym) for n in ast.walk(st.test)) or f"{self.cp}.chnm" in norm(st.test)
             t = self.truth(st.test)
+            if t is None and isinstance(st.test, ast.Compare) and len(st.test.ops) == 1 and isinstance(st.test.ops[0], (ast.Is, ast.IsNot)) \
+                    and isinstance(st.test.comparators[0], ast.Constant) and st.test.comparators[0].value is None and isinstance(st.test.left, ast.Name) \
+                    and st.test.left.id in self.sym and isinstance(self.sym[st.test.left.id], (ast.Subscript, ast.Attribute, ast.Call)):
+                # `target = self.table[k - base] … if target is not None: target.load(...)`: the question is where chunk k goes when it is
+                # loaded at all, so the branch for a target that is there is the one to follow
+                t = isinstance(st.test.ops[0], ast.IsNot)
             if t is None:
                 if not mentions:
                     return          # a test on something else (the legacy capture): not part of the dispatch
